@@ -30,6 +30,14 @@ pub fn sym_scalar(name: &str, _kind: &str) -> Scalar {
     expand(name, &mut b);
     Scalar::from_bytes_mod_order_wide(&b)
 }
+pub fn seed_variant_topbyte(s: &Scalar, _idx: usize) -> Scalar {
+    let mut b = s.to_bytes();
+    b[31] = (b[31] ^ 0x01) & 0x0f;
+    Option::<Scalar>::from(Scalar::from_canonical_bytes(b)).unwrap_or_else(|| {
+        b[31] = 0;
+        Scalar::from_bytes_mod_order(b)
+    })
+}
 pub fn free_point(name: &str) -> RistrettoPoint {
     let mut b = [0u8; 64];
     expand(&format!("point:{}", name), &mut b);
